@@ -167,7 +167,7 @@ def atLPB (e : Enc) (r : List Nat) : Enc := { e with breaks := (e.out.length % 6
 def patched (e : Enc) (P B : List Nat) (n : Nat) (r : List Nat) : Enc :=
   { e with out := P ++ brkCmd (B.length + 2) ++ (B ++ [mds_LPF, n % 256]), breaks := r, lastRest := U16, lastNote := U16, lastType := mds_LPF }
 
-theorem encEv_lpb (nS nM : Nat) (e : Enc) (arg b : Nat) (r : List Nat) (hb : e.breaks = b :: r) :
+theorem encEv_lpb (nS nM : Nat) (e : Enc) (arg : Nat) (r : List Nat) (hb : e.breaks = 0 :: r) :
     encEv nS nM e ⟨mds_LPB, arg⟩ = .ok (atLPB e r) := by
   have n1 : ¬ (mds_LPB = mds_SEGNO) := by decide
   have n2 : ¬ (mds_LPB = mds_SLR ∨ mds_LPB = mds_FINISH) := by decide
@@ -181,7 +181,7 @@ theorem encEv_lpb (nS nM : Nat) (e : Enc) (arg b : Nat) (r : List Nat) (hb : e.b
   have n10 : ¬ (mds_LPB = mds_LP) := by decide
   have h : encOther nS nM e mds_LPB arg = .ok { e with breaks := (e.out.length % 65536) :: r } := by
     simp only [encOther, n1, n2, n3, n4, n5, n6, n7, n8, n9, n10, if_false, Bool.false_eq_true, if_true, hb]
-  exact encEv_other (by decide) h
+  exact encEv_other (by decide) h (by simp [hb])
 
 /-- the back-patch at the loop end, in the form "prefix ++ break instruction ++ rest" -/
 theorem encEv_lpf_break (nS nM : Nat) (e : Enc) (arg : Nat) (P B : List Nat) (r : List Nat)
@@ -276,7 +276,7 @@ theorem encN_eq (nS nM : Nat) : ∀ (t : Node), t.lin = true → ∀ (e e' : Enc
           rw [h4r] at h4r'; injection h4r' with h4r'; subst h4r'
           have h1 : encEv nS nM e ⟨mds_LP, 0⟩ = .ok (afterLP e) := encEv_lp nS nM e 0
           have h3 : encEv nS nM e2 ⟨mds_LPB, 0⟩ = .ok e3r := by
-            rw [he3r]; exact encEv_lpb nS nM e2 0 0 e.breaks (by rw [b2]; rfl)
+            rw [he3r]; exact encEv_lpb nS nM e2 0 e.breaks (by rw [b2]; rfl)
           have hbr : e4r.breaks = e2.out.length :: e.breaks := by
             rw [b4r, he3r]; show e2.out.length % 65536 :: e.breaks = _; congr 1; omega
           have h5 := encEv_lpf_break nS nM e4r n e2.out B' e.breaks ho4r hbr hpos hlen4r
